@@ -92,7 +92,7 @@ def r_reg(r):
     return 'map %s %s[%s]' % (r['v'], r['src'], s)
 
 
-def render_prog(p):
+def render_prog(p, macros_last=False):
     out = []
     for m in p['imports']:
         out.append('from %s usepulses *' % m)
@@ -100,12 +100,17 @@ def render_prog(p):
         out.append('let %s %s' % (l['v'], r_ix(l['val'])))
     for r in p['regs']:
         out.append(r_reg(r))
+    mac = []
     for m in p['macros']:
         b = m['body']
-        out.append('macro %s %s' % (' '.join([m['v']] + list(m['params'])), '<' if b['par'] else '{'))
+        mac.append('macro %s %s' % (' '.join([m['v']] + list(m['params'])), '<' if b['par'] else '{'))
         for x in b['body']:
-            r_stmt(x, 1, out)
-        out.append('>' if b['par'] else '}')
+            r_stmt(x, 1, mac)
+        mac.append('>' if b['par'] else '}')
+    if not macros_last:
+        out += mac
     for s in p['body']:
         r_stmt(s, 0, out)
+    if macros_last:
+        out += mac
     return '\n'.join(out) + '\n'
